@@ -180,18 +180,33 @@ def check(ck: Checker) -> None:
                     continue
                 h = gg.nodes[node.loops[-1]]
                 it = h.ast.iter
-                ok = False
-                for alt in expand1(prog, fn, it, levels=2):
-                    t = norm(alt)
-                    if isinstance(alt, ast.Call) and call_name(alt) == "sorted" and any(k.arg == "reverse" and isinstance(k.value, ast.Constant) and k.value.value is True for k in alt.keywords):
-                        key = next((k.value for k in alt.keywords if k.arg == "key"), None)
-                        if key is None or ".key" in norm(key):
-                            ok = True
-                    if isinstance(alt, ast.Call) and call_name(alt) == "reversed" and alt.args and isinstance(alt.args[0], ast.Call) and call_name(alt.args[0]) == "sorted":
-                        inner = alt.args[0]
-                        key = next((k.value for k in inner.keywords if k.arg == "key"), None)
-                        if (key is None or ".key" in norm(key)) and not any(k.arg == "reverse" for k in inner.keywords):
-                            ok = True
+
+                def key_ok(k) -> bool:
+                    if k is None:
+                        return False
+                    if isinstance(k, ast.Lambda):
+                        return ".key" in norm(k.body)
+                    if isinstance(k, ast.Name):
+                        ent = prog.lookup_name(fn, k.id)
+                        if isinstance(ent, Func):
+                            return any(isinstance(r_, ast.Return) and r_.value is not None and ".key" in norm(r_.value) for r_ in walk_own(ent.node))
+                    return False
+
+                def desc_sorted(e) -> bool:
+                    if isinstance(e, ast.Call) and call_name(e) == "sorted":
+                        rev = next((k.value for k in e.keywords if k.arg == "reverse"), None)
+                        return isinstance(rev, ast.Constant) and rev.value is True and key_ok(next((k.value for k in e.keywords if k.arg == "key"), None))
+                    if isinstance(e, ast.Call) and call_name(e) == "reversed" and e.args and isinstance(e.args[0], ast.Call) and call_name(e.args[0]) == "sorted":
+                        inner = e.args[0]
+                        return key_ok(next((k.value for k in inner.keywords if k.arg == "key"), None)) and not any(k.arg == "reverse" for k in inner.keywords)
+                    return False
+
+                ok = any(desc_sorted(alt) for alt in expand1(prog, fn, it, levels=2))
+                if not ok and isinstance(it, ast.Name):
+                    sorts = [x for x in gg.nodes.values() for c2 in calls_at(x) if is_method_call(c2, "sort") and norm(c2.func.value) == it.id
+                             and any(k.arg == "reverse" and isinstance(k.value, ast.Constant) and k.value.value is True for k in c2.keywords)
+                             and key_ok(next((k.value for k in c2.keywords if k.arg == "key"), None))]
+                    ok = bool(sorts) and avoiding_path(gg, h.id, lambda x: x.id in {s_.id for s_ in sorts}) is None
                 ck.require(ok, "C09.nested", fn, h, "directories are removed deepest-first (sorted by key, reversed)",
                            f"directories are removed in the order given ({norm(it)}): the diff lists parents before children, rmdir of a non-empty parent fails silently and a nested directory is never replaced by a file",
                            construct=f"for ... in {norm(it)} / rmdir order")
@@ -265,6 +280,8 @@ def _compare_rules(ck: Checker) -> None:
         r = norm(e.comparators[0])
         if isinstance(e.ops[0], ast.Eq):
             return lab == "T" and r in names
+        if isinstance(e.ops[0], ast.NotEq):
+            return lab == "F" and r in names
         return False
 
     def just(t, lab):
@@ -321,10 +338,11 @@ def _compare_rules(ck: Checker) -> None:
     # MODIFY with changed hash/kind: both delete(old) and create(new)
     del_calls = [(n, c) for n, c in sinks if c.args and norm(c.args[0]).endswith(".old")]
     crt_calls = [(n, c) for n in g.nodes.values() for c in calls_at(n) if any(cal.fq in {h.fq for h in create_helpers} for cal in res.resolve(cmp_, c)) and c.args and norm(c.args[0]).endswith(".new")]
-    mod_tests = [t for t in g.nodes.values() if typ_is(t, "T", ("MODIFY",))]
+    mod_tests = [t for t in g.nodes.values() if typ_is(t, "T", ("MODIFY",)) or typ_is(t, "F", ("MODIFY",))]
     ck.floor("C09.kinds", len(mod_tests), 1, "MODIFY branches in _compare")
     for t in mod_tests:
-        r = g.reach([d for lab, d in t.succ if lab == "T"], skip_node=lambda x: x.kind == "for")
+        mlab = "T" if typ_is(t, "T", ("MODIFY",)) else "F"
+        r = g.reach([d for lab, d in t.succ if lab == mlab], skip_node=lambda x: x.kind == "for")
         d_in = [n for n, c in del_calls if n.id in r]
         c_in = [n for n, c in crt_calls if n.id in r]
         ok = bool(d_in) and bool(c_in)
